@@ -504,6 +504,9 @@ def wl_cuckoo(ctx, rng, case):
             ctx.check(type(t) is cls, f"{cls.__name__}: loader {lname} returned a {type(t).__name__}")
             compare(ctx, s, t, acc, MEMBER_Q, keys + ["never-added", b"nope"], f"{cls.__name__} via {lname}")
             ctx.check(bytes(t) == data, f"{cls.__name__}: re-export after loading via {lname} differs from the original export")
+            # the loaded structure has now been exported itself: it is still the structure it was (same table, same answers) and exports the same again
+            compare(ctx, s, t, acc, MEMBER_Q, keys + ["never-added"], f"{cls.__name__} loaded via {lname}, after it was exported again")
+            ctx.check(bytes(t) == data, f"{cls.__name__}: the second re-export after loading via {lname} differs")
             ctx.count(f"channel.{lname}")
         case.nontrivial = True
     finally:
